@@ -158,16 +158,19 @@ def raft_run(ctx, note=True):
     return res
 
 
-FRAGMENT = ('fragment of Props/TierC2.v (Props/TierC.v is the same without compaction): static membership, no dump file, 1 < batch, '
-            'every command smaller than a batch (no chunked entries), voters never restart, no snapshot refused for its code version; '
-            'log compaction and snapshot install on voters and read-only nodes, read-only nodes, drops, losses, any clocks allowed')
+FRAGMENT = ('fragment of Props/TierC3.v (TierC2.v: the same without chunked entries, TierC.v: also without compaction): static '
+            'membership, no dump file, 1 < batch, voters never restart, no snapshot refused for its code version; commands of any '
+            'size (entries sent in pieces), log compaction and snapshot install on voters and read-only nodes, read-only nodes, drops, '
+            'losses, any clocks allowed')
 PARTIAL = {
-    'C01': ['state-machine safety across nodes is a theorem only for the ' + FRAGMENT + '; with chunked entries, membership change, '
+    'C01': ['state-machine safety across nodes is a theorem only for the ' + FRAGMENT + '; with membership change, '
             'dump files or restarts it rests on the handler-level theorems, the correspondence and the monitor'],
-    'C02': ['"SUCCESS means committed and never undone": C02_success_is_committed_core_partial - the entry whose application fired a '
+    'C02': ['"SUCCESS means committed and never undone": C02_success_is_committed_core2_partial - the entry whose application fired a '
             'SUCCESS callback sits at an index <= commit with the term it was subscribed with, and every voter that later commits that '
-            'index holds the same entry - for the ' + FRAGMENT + '; the link from the callback id back to the submitted command over '
-            'the whole run (C02_success_is_committed_core_full) is not proved; outside the fragment: correspondence + monitor'],
+            'index holds the same entry - and C02_success_is_committed_core2_direct - for a command that was never forwarded that entry '
+            'carries the submitted command - both for the fragment of Props/TierC2.v (static membership, no dump file, commands smaller than a '
+            'batch, voters never restart; compaction and snapshot install included); the forwarded case of the id -> command link '
+            '(C02_success_is_committed_core2_full) is not proved; outside the fragment: correspondence + monitor'],
     'C03': ['election safety: all runs with static membership, no dump file, no restart of voters; leader completeness: ' + FRAGMENT],
     'C04': ['majority-backed commit and log matching across nodes: ' + FRAGMENT + '; applied index monotone: every message handler and '
             'every tick except the restart path (first tick after a restart loads the dump)'],
@@ -186,9 +189,10 @@ PARTIAL = {
     'C18': ['non-interference of read-only nodes is refuted in one respect (a voter whose only connection is an observer starts '
             'elections: C18_noninterference_refuted) and proved for the leader phase; what the property states (no vote, no leadership, '
             'never counted) is proved for all reachable states'],
-    'C20': ['the SUCCESS-callback part of "no commit while cut off" is proved as a commit-index bound only '
-            '(C20_no_commit_when_cut_partial); the bound itself (C20_bound_reachable_full) holds for every reachable leader state, '
-            'static or dynamic membership, with no state hypothesis left'],
+    'C20': ['"no commit while cut off": commit bound for every reachable leader state (C20_no_commit_when_cut_reachable) and no SUCCESS '
+            'for a callback waiting on an index above the frozen majority (C20_no_success_when_cut); the version with K = the '
+            'leader\'s log end (nothing submitted after the cut is acknowledged: C20_no_success_when_cut_full) needs match_idx <= log '
+            'end as a reachable-state invariant and is not proved; C20_bound_reachable_full has no state hypothesis left'],
 }
 
 
